@@ -14,7 +14,7 @@ def canon_digest(doc, alg):
     return getattr(hashlib, alg)(json.dumps(doc, sort_keys=True, ensure_ascii=False).encode("utf8")).hexdigest()
 
 
-def gen_patch_ops(rng, ws, nops):
+def gen_patch_ops(rng, ws, nops, channels_only=False):
     """ops generated against a working copy so that every path is valid at its turn
     and the result is still a schema-valid workspace."""
     cur = copy.deepcopy(ws)
@@ -26,7 +26,10 @@ def gen_patch_ops(rng, ws, nops):
         smp = ch["samples"][si]
         nb = len(smp["data"])
         kind = rng.choice(["add_sample", "replace_bin", "replace_obs", "remove_mod", "copy_mod", "move_mod", "test",
-                           "replace_poi", "add_param", "add_sample", "cross_num", "cross_num", "cross_param"])
+                           "replace_poi", "add_param", "add_sample", "cross_num", "cross_num", "cross_param"] + (["root"] if rng.random() < 0.25 else []))
+        if channels_only:
+            # operations that also make sense on a model specification ({channels, parameters}: what Workspace.model patches)
+            kind = rng.choice(["add_sample", "replace_bin", "remove_mod", "copy_mod", "move_mod", "test", "replace_bin"])
         op = None
         if kind == "add_sample":
             s = {"name": f"new_signal_{len(ops)}", "data": [round(rng.uniform(1, 9), 3) for _ in range(nb)],
@@ -79,6 +82,11 @@ def gen_patch_ops(rng, ws, nops):
                 except jp.PatchError:
                     pass
                 continue
+        elif kind == "root":
+            # an operation on the whole document (the empty JSON pointer): replace/add it by an edited copy of itself
+            doc2 = copy.deepcopy(cur)
+            doc2["channels"][ci]["samples"][si]["data"][rng.randrange(nb)] = round(rng.uniform(1, 90), 3)
+            op = {"op": rng.choice(["replace", "add"]), "path": "", "value": doc2}
         elif kind == "test":
             op = {"op": "test", "path": f"/channels/{ci}/name", "value": ch["name"]}
         elif kind == "replace_poi":
